@@ -14,7 +14,7 @@ import PycsepVerif.Model.NumberTestPub
   c07_pubh  base ops n          -> "d1 d2 total"  (numberTestPub after a history of scale / scale_to_test_date calls, see parseOp?)
   c07_pubhn base ops n var      -> "d1 d2 total"  (nbdNumberTestPub, the same way)
   c07_shifte n eps              -> "a b"           (shiftFE eps n: any epsilon argument, a rational n/d)
-  c07_ups   mean var            -> "u d"           (upsilonF = 1.0 - ((var - mean) / var) in Soft64; upsilonDirectF = mean / var)
+  c07_ups   mean var            -> "u d"           (upsilonF = mean / var in Soft64, the code since D47; upsilonOldF = 1.0 - ((var - mean) / var), before)
   c07_puba  base factors n      -> "d1 d2 total"  (numberTestPubA: array-valued scale factor, broadcast by the caller)
   c07_puban base factors n var  -> "d1 d2 total"  (nbdNumberTestPubA)
   c07_cf    apply k ncat cats nobs -> "k:n k:n"   (catalogNTestCF after k earlier passes; an event is 1 = kept by the
@@ -109,7 +109,7 @@ def handle : List String → Option String
       | some n, some e => let p := shiftFE e n; s!"{p.1} {p.2}"
       | _, _ => "bad-op")
   | ["c07_ups", m, v] => some (match parseRat? m, parseRat? v with
-      | some m, some v => s!"{showRat (upsilonF m v)} {showRat (upsilonDirectF m v)}"
+      | some m, some v => s!"{showRat (upsilonF m v)} {showRat (upsilonOldF m v)}"
       | _, _ => "bad-op")
   | _ => none
 end Drive.C07
